@@ -312,4 +312,109 @@ VARIANTS = [
     dict(name="c01-module-without-configured-header-class", property="C01", rule="C01-R8",
          edits=[dict(file=M, old="    header_cls: Type[MessageHeader]\n", new="    header_cls: Type[MessageHeader] = MessageHeader\n"),
                 dict(file=M, old="                                self.generate_uid(), conn, address, self.header_cls", new="                                self.generate_uid(), conn, address")]),
+
+    # ---------------- wave 5 ----------------
+    dict(name="c01-subscribe-all-registers-last-individual-type", property="C01", rule="C01-R9", file=M,
+         old="""            for sub_type in src_module.subs:
+                self.subscriptions[sub_type].discard(src_module)
+            src_module.subs.clear()
+
+            self.subscriptions[sub.msg_type].add(src_module)
+            src_module.subs.add(sub.msg_type)
+            self.logger.debug(f"SUBSCRIBE- {src_module!s} to ALL_MESSAGE_TYPES")""",
+         new="""            sub_type = sub.msg_type
+            for sub_type in src_module.subs:
+                self.subscriptions[sub_type].discard(src_module)
+            src_module.subs.clear()
+
+            self.subscriptions[sub_type].add(src_module)
+            src_module.subs.add(sub_type)
+            self.logger.debug(f"SUBSCRIBE- {src_module!s} to ALL_MESSAGE_TYPES")"""),
+    dict(name="c03-validation-back-on-in-debug-mode", property="C03", rule="C03-V", file=M,
+         old="            with disable_message_validation():\n                while self._keep_running:",
+         new="            with disable_message_validation(ignore=self._debug):\n                while self._keep_running:"),
+    dict(name="c03-silent-validation-off-explicit-false", property="C03", expect="silent", file=M,
+         old="            with disable_message_validation():\n                while self._keep_running:",
+         new="            with disable_message_validation(ignore=False):\n                while self._keep_running:"),
+    dict(name="c07-log-record-published-before-deregistration", property="C07", rule="C07-W", file=M,
+         old="""            return
+
+        # Drop all subscriptions for this module
+        for msg_type in module.subs:""",
+         new="""            return
+
+        self.logger.debug(f"CLIENT_CLOSE - {module!s}")
+
+        # Drop all subscriptions for this module
+        for msg_type in module.subs:"""),
+    dict(name="c07-client-closed-published-before-logger-erase", property="C07", rule="C07-W", file=M,
+         old="""        # Discard from logger module set if needed
+        self.logger_modules.discard(module)
+
+        # Drop from our module mapping
+        module.close()
+
+        self.send_client_close(module)""",
+         new="""        self.send_client_close(module)
+
+        # Discard from logger module set if needed
+        self.logger_modules.discard(module)
+
+        # Drop from our module mapping
+        module.close()
+"""),
+    dict(name="c07-silent-log-after-deregistration", property="C07", expect="silent", file=M,
+         old="""        # Drop from our module mapping
+        module.close()
+
+        self.send_client_close(module)""",
+         new="""        # Drop from our module mapping
+        module.close()
+        self.logger.debug(f"CLIENT_CLOSE - {module!s}")
+
+        self.send_client_close(module)"""),
+    dict(name="c19-ack-in-handler-skipped-by-early-return", property="C19", rule="C19-D",
+         edits=[dict(file=M, old="            self.add_subscription(src_module, msg)\n            self.send_ack(src_module)", new="            self.add_subscription(src_module, msg)"),
+                dict(file=M, old='            self.logger.debug(f"SUBSCRIBE- {src_module!s} to MT:{sub.msg_type}")\n', new='            self.logger.debug(f"SUBSCRIBE- {src_module!s} to MT:{sub.msg_type}")\n        self.send_ack(src_module)\n')]),
+    dict(name="c14-silent-deliver-flag", property="C14", expect="silent", file=M,
+         old="""            if module.conn in self.wlist:
+                try:
+                    if (
+                        dest_mod_id == 0
+                        or (module.mod_id == dest_mod_id)
+                        or module.is_logger
+                    ):
+                        module.send_message(header, data)
+                        module.drops = 0""",
+         new="""            if module.conn in self.wlist:
+                try:
+                    wanted = (
+                        dest_mod_id == 0
+                        or (module.mod_id == dest_mod_id)
+                        or module.is_logger
+                    )
+                    if wanted:
+                        module.send_message(header, data)
+                        module.drops = 0"""),
+    dict(name="c01-deliver-flag-ignores-filter", property="C01", rule="C01-R2", file=M,
+         old="""            if module.conn in self.wlist:
+                try:
+                    if (
+                        dest_mod_id == 0
+                        or (module.mod_id == dest_mod_id)
+                        or module.is_logger
+                    ):
+                        module.send_message(header, data)
+                        module.drops = 0""",
+         new="""            if module.conn in self.wlist:
+                try:
+                    wanted = (
+                        dest_mod_id == 0
+                        or (module.mod_id == dest_mod_id)
+                        or module.is_logger
+                    )
+                    wanted = True
+                    if wanted:
+                        module.send_message(header, data)
+                        module.drops = 0"""),
 ]
